@@ -244,8 +244,12 @@ fn get_superficial_loss_info(
             }
             TxActionSpecifics::Split(split) => {
                 // Adjustment goes backwards in time for txs after the sale.
-                let new_split_adjustment =
-                    split_adjustment / split.ratio.pre_to_post_factor();
+                // (Apply the two terms of the ratio one after the other. Dividing
+                // by the pre-computed factor would compound its rounding, eg.
+                // 1 / (1/3) = 3.000...0003)
+                let new_split_adjustment = split_adjustment
+                    * split.ratio.pre_split
+                    / split.ratio.post_split;
                 af_split_adjustments.insert(after_tx_affil, new_split_adjustment);
             }
             // These don't change the share quantity, so they can be ignored
@@ -300,8 +304,9 @@ fn get_superficial_loss_info(
             }
             TxActionSpecifics::Split(split) => {
                 // Adjustment goes forwards in time for txs before the sale.
-                let new_split_adjustment =
-                    split_adjustment * split.ratio.pre_to_post_factor();
+                let new_split_adjustment = split_adjustment
+                    * split.ratio.post_split
+                    / split.ratio.pre_split;
                 af_split_adjustments.insert(before_tx_affil, new_split_adjustment);
             }
             // ignored
